@@ -66,7 +66,7 @@ class StatisticsEndpoint(EndpointListener, Endpoint):
         _, data = packet
 
         prefix = data[:22]
-        if prefix not in list(self.statistics.keys()) or len(data) < 22:
+        if prefix not in list(self.statistics.keys()) or len(data) < 23:
             return
 
         message_id = data[22]
